@@ -281,8 +281,12 @@ def intpow_extra(ctx: Ctx):
     n1, n2 = rng.choice([2, 3, 4]), rng.choice([2, 3])
     text = (f"states(x=0.5, y=-0.25)\nparameters(a=0.75)\n"
             f"frac = {rng.choice([1, 3, 7])}/{b1}**{n1}\nbig = {b2}**{n2}*1e-12\n"
-            f"dx_dt = a*frac - x/{b1}**{n1} + big*1e-3\ndy_dt = -y*(x/{rng.choice([2, 5])}**{n1}) + {b1}**{n1}*a\n")
-    pts = [{"x": rng.uniform(-2, 2), "y": rng.uniform(-2, 2), "a": rng.uniform(0.5, 2), "t": 0.5, "dt": 0.01} for _ in range(3)]
+            f"nexp = Conditional(Lt(x, 0), 2, -3)\nscale = a*{rng.choice([10, 2, 7])}**nexp + 2**Conditional(Gt(y, 0), -2, 1)\n"
+            f"dx_dt = a*frac - x/{b1}**{n1} + big*1e-3\ndy_dt = -y*(x/{rng.choice([2, 5])}**{n1}) + {b1}**{n1}*a + scale\n")
+    # an integer base raised to an integer-valued exponent that is computed (inline or through a named intermediate)
+    # and negative on some samples: integer arithmetic refuses it or returns garbage
+    pts = [{"x": sx * rng.uniform(0.2, 2), "y": sy * rng.uniform(0.2, 2), "a": rng.uniform(0.5, 2), "t": 0.5, "dt": 0.01}
+           for sx, sy in ((1, 1), (-1, -1), (1, -1), (-1, 1))]
     return {"text": text, "points": pts}
 
 
@@ -568,7 +572,8 @@ def c02_case(ctx: Ctx, case: dict):
     cm = common.CModule(code, ctx.tmp, tag)
     if not cm.ok:
         errs = [ln for ln in cm.compile_log.splitlines() if "error" in ln]
-        ctx.violate("C02/c/does-not-compile/" + ("redefinition" if any("redefinition" in e for e in errs) else "other"),
+        ctx.violate("C02/c/does-not-compile/" + ("redefinition" if any("redefinition" in e for e in errs)
+                                                   else "complex-constant" if any("‘I’ undeclared" in e or "'I' undeclared" in e for e in errs) else "other"),
                     f"generated C does not compile: {errs[0][:150] if errs else cm.compile_log[:150]}", case=case)
         return
     funcs, dups = translate.c_module(code)
@@ -699,7 +704,8 @@ def c02_case(ctx: Ctx, case: dict):
                 mv_ = None
                 if name in rm.assigns:
                     mv_ = {"c": [model_c_value(rm, name, rm.base(pt), "c", loose=lo) for lo in (False, True)],
-                           "has_mod": any(_has_tag(e_, ("mod",)) for e_ in rm.assigns.values())}
+                           "has_mod": any(_has_tag(e_, ("mod",)) for e_ in rm.assigns.values()),
+                           "has_quotient": model_has_literal_quotient(list(rm.assigns.values()))}
                 cls = classify_c(f, slots[name], {"states": s, "parameters": p, "t": pt["t"], "dt": pt["dt"]}, r_, spread.get(name, mpf(0)),
                                  got=got, model_vals=mv_)
                 if cls == "ill-conditioned":
@@ -756,7 +762,13 @@ def classify_c(f, slot, inputs, ref, spread=mpf(0), got=None, model_vals=None):
             return (mc is not None and g is not None and
                     ((mpmath.isnan(mc) and mpmath.isnan(g)) or (mpmath.isfinite(mc) and mpmath.isfinite(g) and
                                                                 abs(mc - g) <= 256 * spread + mpf(2) ** -40 * abs(g) + mpf("1e-300"))))
-        if not any(same(mc) for mc in model_vals.get("c", [])):
+        readings = [mc for mc in model_vals.get("c", []) if mc is not None]
+        if not readings:
+            # no literal C reading of the model quantity (it goes through a ContinuousConditional, which gotranx expands
+            # before printing): fall back to the structural test
+            if not model_vals.get("has_quotient", True):
+                return cls + "-not-in-model-text"
+        elif not any(same(mc) for mc in readings):
             return cls + "-not-in-model-text"
     return cls
 
